@@ -9,7 +9,7 @@
    Standard / File exist); [derived k f]: the constructor computes [f] itself (network: the prompt
    pattern is the joined privilege patterns; NETCONF: prompt pattern and NetconfConnection; the NETCONF
    driver's Logger follows WithLogger since the fix of C19:netconf-logger-dropped) — WithPromptPattern is overridden there, which is what the code documents. *)
-From Scrapli Require Import Bytes Regex PlatformTypes Generated Options OptionsLemmas DecideLang GeneratedSkel OptionsSrc.
+From Scrapli Require Import Bytes Regex PlatformTypes Generated Options OptionsLemmas DecideLang GeneratedSkel OptionsSrc OptionsSrcOk.
 
 (* the model has exactly one constructor per `With*` function of driver/options (names generated
    from the source on every run), and one case per option name of platform/options.go *)
